@@ -56,7 +56,7 @@ def strategy(draw, tier="quick"):
             continue
         for _ in range(n):
             if rich:
-                evs.append({"us": draw(gen.instants()), "off": draw(gen.offsets()), "dur_us": draw(gen.durations_us()), "data": draw(gen.json_data(4))})
+                evs.append({"us": draw(gen.instants()), "off": draw(gen.offsets()), "dur_us": draw(gen.durations_us()), "data": draw(gen.json_data(4, surrogates=True))})
             else:
                 evs.append({"us": 1_600_000_000_000_000 + draw(st.integers(0, 10**6)) * 1000, "off": 0, "dur_us": draw(st.integers(0, 10**7)), "data": {"k": draw(st.sampled_from("abc"))}})
         buckets.append(
